@@ -209,6 +209,9 @@ func runC14(c *Check) {
 	c.signalFrameThreshold()
 	c.mergedMappingAttributes()
 	c.mergeWithLastKept()
+	c.duplicateLeafByEquality()
+	c.heapHeaderAllocColumns()
+	c.rebaseCurrentFirstMapping()
 }
 
 // signalFrameRemoval (R6): the binary CPU parser removes the frame at position 1 only from
